@@ -373,6 +373,15 @@ fn check_identity(case: &Case, ev: &mut CaseEv) -> CheckResult {
     if let Some(i) = tens::first_bit_diff(&of, &x) {
         fail!("identity layers around a flat<->spatial transition changed the element sequence at position {} ({:?} vs {:?}); network {:?}", i, of.get(i), x.get(i), spec);
     }
+    // the same numbers handed over as a flat vector (a convolution / deconvolution / max-pool splits a flat input
+    // into its c x h x w input shape; a feedback block insists on the tensor form)
+    if !flat_first && !matches!(spec.layers[0], LayerSpec::Feedback { .. }) {
+        let out2 = catch(|| net.predict(&Tensor::single(x.clone()))).map_err(|p| Fail::new(format!("identity network {:?} panicked in predict when the {}x{}x{} input was given as a flat vector: {}", spec, c, h, w, p)))?;
+        if let Some(i) = tens::first_bit_diff(&tens::flat(&out2), &x) {
+            fail!("identity layers changed the element sequence at position {} when the {}x{}x{} input was given as a flat vector; network {:?}", i, c, h, w, spec);
+        }
+        ev.class("identity: spatial input also given flat");
+    }
     let last_spatial = spec.layers.last().unwrap().is_spatial();
     let want = if last_spatial { Shape::Triple(c, h, w) } else { Shape::Single(n) };
     ensure!(out.shape == want, "identity network output shape {:?}, expected {:?}", out.shape, want);
